@@ -24,7 +24,8 @@ EXPLANATION = (
     "the acked backend-feature bit, write length is size_of of the chosen struct, field-by-field provenance "
     "for writer and parsers; (U5) set_vring_addr reaches the ioctl only under is_valid = true, and every "
     "accepting path of both is_valid implementations tests size != 0, size <= max, power of two and the "
-    "log-address rule.")
+    "log-address rule."
+    ' Also: (U4) the acknowledged backend features are stored only after the ioctl succeeded and are the value passed to it; (U2) `ioctl_result(ret, ..)?; ...; Ok(v)` accepted as the same result.')
 NOT_DECIDED = "Kernel behaviour; values of guest-memory translation (get_host_address is third-party)."
 
 IOCTL_WRAPPERS = {"ioctl": "none", "ioctl_with_ref": "ref", "ioctl_with_mut_ref": "mut",
